@@ -118,3 +118,15 @@ def check(case) -> Result:
                   "dpi72" if dpi == 72.0 else "dpi_other", "empty" if not s else "nonempty"]
     res.nontrivial = bool(s) and (nonascii or a != int(a) or dpi != 72.0)
     return res
+
+
+def reductions(case):
+    t = case["text"]
+    if len(t) > 1:
+        for cut in (t[: len(t) // 2], t[len(t) // 2:], t[1:], t[:-1]):
+            yield dict(case, text=cut)
+    if case["dpi"] != 72.0:
+        yield dict(case, dpi=72.0)
+    for key in ("size", "size2"):
+        if case[key] != int(case[key]):
+            yield dict(case, **{key: float(int(case[key]))})
